@@ -245,8 +245,77 @@ fn exhaustive_small(out: &mut Out, f: &'static Params, ops: &[&'static str]) {
     }
 }
 
+/// Field255 (fiat-crypto limbs behind the same public traits): arithmetic, inversion, byte and integer conversions
+/// against the definition modulo 2^255 - 19.  Oracle only (the limb code is not modelled).
+fn field255(out: &mut Out, rng: &mut Sm, thorough: bool) {
+    use prio::codec::Decode;
+    use prio::field::{Field255, FieldElement};
+    let p: BigUint = (BigUint::one() << 255) - BigUint::from(19u32);
+    let of_big = |x: &BigUint| -> Field255 {
+        let mut b = x.to_bytes_le();
+        b.resize(32, 0);
+        Field255::try_from(b.as_slice()).expect("reduced value decodes")
+    };
+    let to_big = |x: Field255| -> BigUint { BigUint::from_bytes_le(&Vec::<u8>::from(x)) };
+    let mut vals: Vec<BigUint> = vec![BigUint::zero(), BigUint::one(), BigUint::from(2u32), &p - 1u32, &p - 2u32, &p - 19u32, (&p - 1u32) / 2u32, (&p + 1u32) / 2u32];
+    for k in [8usize, 16, 31, 32, 33, 63, 64, 65, 127, 128, 129, 191, 192, 193, 254] {
+        let t = BigUint::one() << k;
+        vals.push(&t - 1u32);
+        vals.push(t.clone());
+        vals.push(&t + 5u32);
+    }
+    for _ in 0..(if thorough { 400 } else { 60 }) {
+        vals.push(BigUint::from_bytes_le(&rng.bytes(32)) % &p);
+    }
+    let vals: Vec<BigUint> = vals.into_iter().filter(|v| *v < p).collect();
+    for (i, x) in vals.iter().enumerate() {
+        let a = of_big(x);
+        out.oracle(to_big(a) == *x, || format!("field255 bytes round trip {}", x), || "decode(encode) differs".into());
+        // integer conversion: exactly the values below 2^64
+        let r = u64::try_from(a);
+        let want = x.to_u64();
+        out.oracle(r.as_ref().ok().copied() == want, || format!("field255 u64::try_from {}", x), || format!("got {:?}, want {:?}", r.as_ref().ok(), want));
+        if let Some(w) = want {
+            out.oracle(Field255::from(w) == a, || format!("field255 from(u64) {}", w), || "from(u64) differs".into());
+        }
+        out.oracle(to_big(-a) == (&p - x) % &p, || format!("field255 neg {}", x), || "wrong".into());
+        // (Field255::inv is documented as unimplemented)
+        let y = &vals[(i * 7 + 3) % vals.len()];
+        let b = of_big(y);
+        out.oracle(to_big(a + b) == (x + y) % &p, || format!("field255 add {} {}", x, y), || "wrong".into());
+        out.oracle(to_big(a - b) == (x + &p - y) % &p, || format!("field255 sub {} {}", x, y), || "wrong".into());
+        out.oracle(to_big(a * b) == (x * y) % &p, || format!("field255 mul {} {}", x, y), || "wrong".into());
+        out.count("field255.values");
+    }
+    // canonical encodings only: the modulus and above, and anything with the unused top bit set, are refused by
+    // BOTH byte conversions (try_from(&[u8]) and the codec)
+    let mut bad: Vec<Vec<u8>> = vec![];
+    for d in [0u32, 1, 18] {
+        let mut b = (&p + d).to_bytes_le();
+        b.resize(32, 0);
+        bad.push(b);
+    }
+    for low in [0u8, 5, 0xec, 0xff] {
+        let mut b = vec![0u8; 32];
+        b[0] = low;
+        b[31] = 0x80;
+        bad.push(b);
+        let mut b = rng.bytes(32);
+        b[31] |= 0x80;
+        bad.push(b);
+    }
+    bad.push(vec![0xff; 32]);
+    for b in bad {
+        out.oracle(Field255::try_from(b.as_slice()).is_err(), || format!("field255 try_from {}", hex(&b)), || "non-canonical encoding accepted".into());
+        out.oracle(Field255::get_decoded(&b).is_err(), || format!("field255 decode {}", hex(&b)), || "non-canonical encoding accepted".into());
+        out.count("field255.noncanonical");
+    }
+    out.oracle(Field255::try_from(&[0u8; 31][..]).is_err(), || "field255 try_from 31 bytes".to_string(), || "short input accepted".into());
+}
+
 pub fn run(out: &mut Out, thorough: bool, seed: u64) {
     let mut rng = Sm::new(seed ^ 0xC09);
+    field255(out, &mut Sm::new(seed ^ 0x255), thorough);
     // 1. scaled-down instantiations: FP8 all pairs through the model, FP16S all pairs through the oracle
     let f8 = &FIELDS[0];
     for x in 0..f8.p {
